@@ -661,10 +661,22 @@ impl<E: Effect> Executor<E> {
 
         self.processes.insert(id, process);
 
-        // Inject heap data and populate locals with captures
+        // Inject the heap data once, for the captures and the argument together: they share one
+        // numbering of `heap_data` (see `Worker::handle_action`), and injecting per value would
+        // allocate a fresh copy of every binary for each value, leaving the unreferenced copies
+        // floating for ever.
         let captures_count = captures.len();
-        for value in captures {
-            let injected = self.inject_heap_data(value, &heap_data)?;
+        let mut all_values = captures;
+        all_values.push(argument);
+        let injected = self.inject_heap_data(Value::tuple(crate::types::NIL, all_values), &heap_data)?;
+        let Value::Tuple(_, injected) = injected else {
+            unreachable!("injecting a tuple yields a tuple")
+        };
+        let mut injected: Vec<Value> = injected.iter().cloned().collect();
+        let injected_arg = injected.pop().expect("the argument was appended above");
+
+        // Populate locals with captures
+        for injected in injected {
             // Injected into rooted storage (the new frame's locals).
             self.retain(&injected);
             let process = self
@@ -674,7 +686,6 @@ impl<E: Effect> Executor<E> {
         }
 
         // Push argument onto stack
-        let injected_arg = self.inject_heap_data(argument, &heap_data)?;
         self.retain(&injected_arg);
         let process = self
             .get_process_mut(id)
